@@ -13,6 +13,13 @@ FactoryVal.tla: one key of one component x the whole value grammar (list lengths
 FactoryMix.tla (subs): gas / contribution sub-sections under plain, composite '+' and custom python_file selectors:
       one object per sub-section in the built graph, and the graph equals the library-built one (enhance_class + addGas /
       add_contribution).  FactoryAsm.tla: the forms of the [Chemistry] selector and [Fitting] sections through the CLI.
+FactorySect.tla + FactoryAsm family C: the PRESENCE of sections -- every subset of [Temperature] [Pressure] [Chemistry] [Planet]
+      [Star] left out x every subset of the layer keys under [Model] x [Instrument]: an absent section leaves the model
+      constructor's keyword at None, the [Model] layer keys are the model's pressure grid (in-process on every file, a few
+      through the CLI).
+FactoryParser.tla: the ParameterParser as a long-lived object -- TLC-generated walks of generate_* calls in any order, twice,
+      after read() of another file, on files with sections left out: every call equals a fresh parser's, the parser's
+      configuration stays as read (harness/fx_parser.py).
 """
 import contextlib
 import io
